@@ -47,8 +47,8 @@ pub struct C01;
 const BASE_EPOCH_MS: u64 = 1_700_000_000_000;
 
 #[derive(Debug, Clone, Copy, PartialEq, Eq)]
-enum Mode { SetTime, Readonly, NodeClock, Sharded }
-impl Mode { fn name(&self) -> &'static str { match self { Mode::SetTime => "T1a:set_time", Mode::Readonly => "T1b:update_time_readonly+ticks", Mode::NodeClock => "T1c:ticks-only", Mode::Sharded => "T2:sharded-1" } } }
+enum Mode { SetTime, Readonly, NodeClock, Sharded, Replicated }
+impl Mode { fn name(&self) -> &'static str { match self { Mode::SetTime => "T1a:set_time", Mode::Readonly => "T1b:update_time_readonly+ticks", Mode::NodeClock => "T1c:ticks-only", Mode::Sharded => "T2:sharded-1", Mode::Replicated => "T3:replicated-node" } } }
 
 #[derive(Debug, Clone, Copy, PartialEq, Eq)]
 enum Path { Generic, Fast, Pooled, Batch }
@@ -67,31 +67,41 @@ struct Sut {
     virt: u64,
     ex: Option<CommandExecutor>,
     sharded: Option<(tokio::runtime::Runtime, ShardedActorState<SimClock>, SimClock)>,
+    /// T3: the node the persistent server runs (ReplicatedShardedState: 16 replicated shard actors, each with its own
+    /// executor), one key in play so that every command stays on one shard
+    replicated: Option<(tokio::runtime::Runtime, redis_sim::production::ReplicatedShardedState<SimClock>, SimClock)>,
 }
 
 impl Sut {
     fn new(mode: Mode, epoch_ms: u64, seed: u64) -> Sut {
-        if mode == Mode::Sharded {
+        if mode == Mode::Replicated {
+            let clock = SimClock::new(epoch_ms);
+            let rt = rt::runtime(seed);
+            let state = { let _g = rt.enter(); redis_sim::production::ReplicatedShardedState::with_time_source(crate::model::cluster::repl_config(1, redis_sim::replication::ConsistencyLevel::Eventual), clock.clone()) };
+            Sut { mode, epoch_ms, virt: 0, ex: None, sharded: None, replicated: Some((rt, state, clock)) }
+        } else if mode == Mode::Sharded {
             let clock = SimClock::new(epoch_ms);
             let rt = rt::runtime(seed);
             let state = { let _g = rt.enter(); crate::props::c03::shard_state(1, &clock) };
-            Sut { mode, epoch_ms, virt: 0, ex: None, sharded: Some((rt, state, clock)) }
+            Sut { mode, epoch_ms, virt: 0, ex: None, sharded: Some((rt, state, clock)), replicated: None }
         } else {
             // exactly what ShardActor::new_with_shared_scripts does with the time source's start instant
             let mut ex = CommandExecutor::new();
             ex.set_simulation_start_epoch((epoch_ms / 1000) as i64);
             ex.set_simulation_start_epoch_ms(epoch_ms as i64);
-            Sut { mode, epoch_ms, virt: 0, ex: Some(ex), sharded: None }
+            Sut { mode, epoch_ms, virt: 0, ex: Some(ex), sharded: None, replicated: None }
         }
     }
     fn now_abs(&self) -> u64 { self.epoch_ms + self.virt }
     fn advance(&mut self, ms: u64) {
         self.virt += ms;
         if let Some((_, _, c)) = &self.sharded { c.set(self.epoch_ms + self.virt); }
+        if let Some((_, _, c)) = &self.replicated { c.set(self.epoch_ms + self.virt); }
     }
     fn tick(&mut self) -> usize {
         let vt = VirtualTime::from_millis(self.virt);
         if let Some(ex) = &mut self.ex { return ex.evict_expired_direct(vt); }
+        if let Some((rt, st, _)) = self.replicated.as_ref() { return rt.block_on(st.evict_expired_all_shards()); }
         let (rt, st, _) = self.sharded.as_ref().unwrap();
         rt.block_on(st.evict_expired_all_shards())
     }
@@ -104,6 +114,11 @@ impl Sut {
                 match mode { Mode::SetTime => ex.set_time(vt), Mode::Readonly => ex.update_time_readonly(vt), _ => {} }
                 match parse_cmd(c) { Ok(cmd) => R::from_resp(&ex.execute(&cmd)), Err(e) => norm_parse_err(e) }
             })).map_err(|_| ());
+        }
+        if let Some((rt, st, _)) = self.replicated.as_ref() {
+            return catch_unwind(AssertUnwindSafe(|| rt.block_on(async {
+                match parse_cmd(c) { Ok(cmd) => R::from_resp(&st.execute(cmd).await), Err(e) => norm_parse_err(e) }
+            }))).map_err(|_| ());
         }
         let (rt, st, _) = self.sharded.as_ref().unwrap();
         let name = String::from_utf8_lossy(&c[0]).to_uppercase();
@@ -338,7 +353,7 @@ impl<'a> Run<'a> {
         self.steps += 1;
         let r = self.sut.send(c, path);
         // a generic command on the sharded path starts with set_time, which evicts
-        if self.sut.mode == Mode::Sharded && path == Path::Generic { self.stale.clear(); }
+        if (self.sut.mode == Mode::Sharded && path == Path::Generic) || self.sut.mode == Mode::Replicated { self.stale.clear(); }
         match r {
             Ok(r) => Some(r),
             Err(()) => {
@@ -375,6 +390,12 @@ impl<'a> Run<'a> {
     /// One command against both sides, reply compared. `tag` is appended to the violation key.
     fn step(&mut self, c: &Cmd, path: Path, tag: &str) {
         if self.ended { return; }
+        if self.sut.mode == Mode::Replicated {
+            // the replicated node knows key commands and a handful of keyless ones; anything else keyless is not its
+            // vocabulary (it answers 'unknown command') and is left out
+            let keyless_ok = matches!(cname(c).as_str(), "KEYS" | "DBSIZE" | "FLUSHDB" | "FLUSHALL" | "MSET" | "MGET" | "EXISTS" | "PING");
+            if parse_cmd(c).ok().map(|pc| pc.get_primary_key().is_some()) == Some(false) && !keyless_ok { return; }
+        }
         let name = cname(c);
         self.cur = Some(c.clone());
         self.sync_model_clock();
@@ -584,14 +605,15 @@ impl Property for C01 {
 
     fn run(&self, src: &mut Src, ctx: &RunCtx) -> RunReport {
         let thorough = ctx.tier == Tier::Thorough;
-        let mode = [Mode::SetTime, Mode::Readonly, Mode::NodeClock, Mode::Sharded][src.weighted(&if thorough { [5, 6, 1, 2] } else { [20, 24, 4, 1] })];
+        let mode = [Mode::SetTime, Mode::Readonly, Mode::NodeClock, Mode::Sharded, Mode::Replicated][src.weighted(&if thorough { [5, 6, 1, 2, 2] } else { [20, 24, 4, 1, 1] })];
         let epoch_ms = BASE_EPOCH_MS + [0u64, 1, 500, 999][src.idx(4)];
         let seed = src.u64_any();
-        let mut g = GenCfg::swarm(src, ALL_FAMS, 6);
+        // (the replicated node routes a command by its first key and has 16 shards: one key in play keeps every command whole)
+        let mut g = GenCfg::swarm(src, ALL_FAMS, if mode == Mode::Replicated { 1 } else { 6 });
         let fams = g.fams.clone();
         let mut run = Run { sut: Sut::new(mode, epoch_ms, seed), model: RefRedis::new(epoch_ms), rep: RunReport::default(), trace: ctx.trace, ctx, stale: BTreeMap::new(), created: BTreeSet::new(), touched_created: false, crossed_deadline: false, ended: false, steps: 0, fp: fnv(0, &[mode as u8, (epoch_ms % 1000 / 4) as u8]), shown: Vec::new(), cur: None, cur_strval: None, quiet: false, cur_zinf: false, after_known: false };
         run.rep.log(ctx.trace, || format!("mode {}  epoch {} ms  families {:?}  keys {:?}", mode.name(), epoch_ms, fams, g.keys.iter().map(|k| String::from_utf8_lossy(k).into_owned()).collect::<Vec<_>>()));
-        run.rep.probe(match mode { Mode::SetTime => "mode_set_time", Mode::Readonly => "mode_readonly_ticks", Mode::NodeClock => "mode_ticks_only", Mode::Sharded => "mode_sharded" });
+        run.rep.probe(match mode { Mode::SetTime => "mode_set_time", Mode::Readonly => "mode_readonly_ticks", Mode::NodeClock => "mode_ticks_only", Mode::Sharded => "mode_sharded", Mode::Replicated => "mode_replicated_node" });
         let mut ncmd = 0;
         let mut sample_cmds: Vec<String> = Vec::new();
         // manual triage aid (never set by the check itself): VERIF_C01_SCRIPT="RPUSH k0 a|+1500|TICK|GET k0"
@@ -656,6 +678,13 @@ impl Property for C01 {
             let mut c = if src.chance(1, 5) { gen_extra(src, &mut g, &run.model) } else { gen_cmd(src, &mut g) };
             let path = if mode == Mode::Sharded { [Path::Generic, Path::Fast, Path::Pooled, Path::Batch][src.idx(4)] } else { Path::Generic };
             src.end();
+            if mode == Mode::Replicated {
+                // the replicated node knows key commands and a handful of keyless ones; anything else keyless is not its
+                // vocabulary (it answers 'unknown command'), so a read of the key stands in
+                let keyless_ok = matches!(cname(&c).as_str(), "KEYS" | "DBSIZE" | "FLUSHDB" | "FLUSHALL" | "MSET" | "MGET" | "EXISTS" | "PING");
+                let has_key = parse_cmd(&c).ok().map(|pc| pc.get_primary_key().is_some());
+                if has_key == Some(false) && !keyless_ok { c = vec![b("GET"), g.keys[0].clone()]; }
+            }
             // the model must be at the right instant before it is asked about authority
             run.sync_model_clock();
             if let Exp::NoAuthority(why) = run.model.clone_probe(&c) {
